@@ -1,12 +1,15 @@
 package checks
 
 import (
+	"context"
 	"fmt"
+	"github.com/internetarchive/Zeno/internal/pkg/archiver/ratelimiter"
 	"os"
 	"path/filepath"
 	"runtime"
 	"sort"
 	"strings"
+	"sync"
 	"sync/atomic"
 	"time"
 
@@ -25,6 +28,7 @@ import (
 func init() {
 	register("C16", c16)
 	registerChild("pipe-c16", c16Child)
+	registerChild("c16-limiter-bound", c16LimiterBoundChild)
 }
 
 type c16Scenario struct {
@@ -398,15 +402,86 @@ func c16(r *vc.Run) int {
 		samples.Add(map[string]any{"plan": fmt.Sprintf("%+v", p), "seeds_after_phase": []int{out.N1, out.N2}, "requests": out.Rq, "after_n": map[string]any{"goroutines": out.A.Goroutines, "fds": out.A.FDs, "buckets": out.A.Buckets}, "after_4n": map[string]any{"goroutines": out.B.Goroutines, "fds": out.B.FDs, "buckets": out.B.Buckets}})
 		os.RemoveAll(dir)
 	})
+	// the limiter table's bound under concurrent first contacts (manager level, see c16LimiterBoundChild)
+	lm := newMerged()
+	lres := runChild(os.Getenv("VZ_BIN"), "c16-limiter-bound", map[string]any{"seed": r.Seed, "rounds": r.N(1500, 20000)}, filepath.Join(r.Scratch, "c16-limiter-bound"), 10*time.Minute)
+	absorb(r, lm, lres, "limiter-bound", nil, true)
+	evaluations.Add(int64(lm.Evaluations))
+	for k := range lm.Distinct {
+		classes.Add(k)
+	}
 	cov := map[string]any{
-		"evaluations":         int(evaluations.Load()),
-		"distinct_nontrivial": classes.Len(),
-		"rule":                "one evaluation = one pipeline lifetime measured at two quiescent points (after N and after 4N seeds: big spooled text bodies, always-503 with retries, resets, redirects, 404s, JSON assets, more hosts than limiter buckets); footprint = goroutines, open descriptors by class, files in the WARC temp dir, tracked seeds, tokens, limiter buckets; distinct = distinct (N, seencheck, limiter, workers) plans that reached two stable quiescent points",
-		"samples":             samples.List(),
-		"classes":             classes.Counts(),
+		"limiter_bound_events": lm.Events,
+		"evaluations":          int(evaluations.Load()),
+		"distinct_nontrivial":  classes.Len(),
+		"rule":                 "one evaluation = one pipeline lifetime measured at two quiescent points (after N and after 4N seeds: big spooled text bodies, always-503 with retries, resets, redirects, 404s, JSON assets, more hosts than limiter buckets); footprint = goroutines, open descriptors by class, files in the WARC temp dir, tracked seeds, tokens, limiter buckets; distinct = distinct (N, seencheck, limiter, workers) plans that reached two stable quiescent points",
+		"samples":              samples.List(),
+		"classes":              classes.Counts(),
 	}
 	return r.Finish("exploration", cov, []string{
 		"origin server in the parent process; a footprint is taken when five consecutive samples 200 ms apart agree",
 		"descriptors under seencheck/ (LevelDB table cache) and logs/ are classed apart and not compared",
 	}, 2)
+}
+
+// c16LimiterBoundChild: the limiter table under concurrent first contacts with new hosts (several
+// workers starting seeds of hosts never seen before at the same instant, table already full). The
+// bound is checked after every round, when no call is in progress.
+func c16LimiterBoundChild(scPath string) int {
+	var sc struct {
+		Seed   int64 `json:"seed"`
+		Rounds int   `json:"rounds"`
+	}
+	if err := readJSON(scPath, &sc); err != nil {
+		return 2
+	}
+	dir := os.Getenv("VZ_CHILD_DIR")
+	rep := newReport()
+	defer rep.write(dir)
+	ctx, cancel := context.WithCancel(context.Background())
+	defer cancel()
+	const bound, callers = 4, 8
+	bm := ratelimiter.NewBucketManager(ctx, bound, 100, 1000, time.Hour)
+	defer bm.Close()
+	worst := 0
+	for round := 0; round < sc.Rounds; round++ {
+		var ready atomic.Int64
+		var gate atomic.Bool
+		var wg sync.WaitGroup
+		for i := 0; i < callers; i++ {
+			wg.Add(1)
+			go func(i int) {
+				defer wg.Done()
+				host := fmt.Sprintf("new-%d-%d.example", round, i)
+				ready.Add(1)
+				for !gate.Load() {
+					runtime.Gosched()
+				}
+				bm.Wait(host)
+				if i%2 == 0 {
+					bm.OnSuccess(host)
+				} else {
+					bm.AdjustOnFailure(host, 503)
+				}
+			}(i)
+		}
+		for ready.Load() < callers {
+			runtime.Gosched()
+		}
+		gate.Store(true)
+		wg.Wait()
+		n, max := bm.VerifBucketCount()
+		if n > worst {
+			worst = n
+		}
+		if n > max {
+			rep.violation("limiter-table-over-bound/concurrent-first-contacts", fmt.Sprintf("after round %d (%d goroutines contacting %d new hosts at the same instant) the limiter table holds %d buckets, configured bound %d", round, callers, callers, n, max), map[string]any{"round": round, "buckets": n, "bound": max})
+			break
+		}
+	}
+	rep.Evaluations = 1
+	rep.event("limiter_bound_rounds", sc.Rounds)
+	rep.event("limiter_table_max_seen", worst)
+	rep.distinct("limiter-bound/concurrent-first-contacts")
+	return 0
 }
